@@ -97,6 +97,10 @@ impl Track {
 	}
 
 	pub fn should_be_removed(&self) -> bool {
+		// a sub-track that is still waiting to be added needs this track
+		if self.sub_tracks.has_pending() {
+			return false;
+		}
 		if self
 			.sub_tracks
 			.iter()
